@@ -293,6 +293,7 @@ class HttpParser(abc.ABC, Generic[_MsgT]):
         self._payload = None
         self._payload_parser: HttpPayloadParser | None = None
         self._payload_has_more_data = False
+        self._seen_close = False
         self._auto_decompress = auto_decompress
         self._limit = limit
         self._headers_parser = HeadersParser(max_field_size, self.lax)
@@ -351,7 +352,9 @@ class HttpParser(abc.ABC, Generic[_MsgT]):
         loop = self.loop
         max_line_length = self.max_line_size
 
-        should_close = False
+        # Remembered across calls: whether bytes that follow a closing message
+        # are rejected must not depend on where the read boundaries fall.
+        should_close = self._seen_close
         while start_pos < data_len or self._payload_has_more_data:
             # read HTTP message (request/response line + headers), \r\n\r\n
             # and split by lines
@@ -522,7 +525,7 @@ class HttpParser(abc.ABC, Generic[_MsgT]):
                         messages.append((msg, payload))
                         if self._max_msg_queue_size:
                             self._msg_in_flight += 1
-                        should_close = msg.should_close
+                        should_close = self._seen_close = msg.should_close
                 else:
                     self._tail = data[start_pos:]
                     # A bare LF here means CRLF was required:
